@@ -4,6 +4,7 @@
 -/
 import PonyVerif.Drive.C01
 import PonyVerif.Model.SqlRender
+import PonyVerif.Drive.C25
 namespace PonyVerif.Drive.C02
 open Lean PonyVerif.Drive PonyVerif.Model.Q
 
@@ -20,5 +21,8 @@ def handle (j : Json) : Except String Json := do
           | .ok s => Json.mkObj [("ok", .str (renderText d s))]
           | .error e => Json.mkObj [("unsupported", .str e)])
         pure (Json.mkObj [("ok", .arr outs.toArray)])
+  | "streval" =>
+      -- the C25 dialect evaluator for string index / slice ASTs (Model/SqlStr.lean), reached through this property's driver entry
+      PonyVerif.Drive.C25.handle (j.setObjVal! "op" (Json.str "eval"))
   | _ => PonyVerif.Drive.C01.handle j
 end PonyVerif.Drive.C02
